@@ -180,7 +180,7 @@ def range_tables(chk: Check, repo: Repo) -> None:
         raise AnalysisError("GroupAddress.MAX_FREE does not fold")
     for m in ("_parse_pattern", "match"):
         chk.unit(rng.methods[m])
-    reps = [0, 7, 9, mf, mf + 1, mf + 4000]  # every ordering the code can distinguish: equal / less / greater, at / beyond the maximum
+    reps = [0, 1, 7, 8, 9, mf - 1, mf, mf + 1, mf + 4000]  # every ordering a comparison (also an off-by-one variant of it) can distinguish: equal / adjacent / apart, at / around / beyond the maximum
 
     def clamp(x: int) -> int:
         return max(0, min(mf, x))
